@@ -170,6 +170,11 @@ def apply_all(all_changes: List[Change], recorder: ChangeRecorder):
     sources: Dict[EnhancedAST, SourceFile] = {}
 
     for change in all_changes:
+        if change.node is None:
+            # the calling expression is unknown (no source), the change can
+            # be reported but not applied
+            continue
+
         if isinstance(change, Delete):
             node = cast(EnhancedAST, change.node).parent
             if isinstance(node, ast.keyword):
